@@ -16,7 +16,8 @@ TECHNIQUE = ("runtime monitoring: output-picture callback invariant (dimensions,
              "callback count) on conformant stream variants with extreme re-packed coefficients; independent framing reader")
 RULE = (
     "case = 1-2 configuration recipes (both profiles, pictures/fragments, all wavelet pairs, transform depths 0-3 x 0-3, 4:4:4/4:2:2/"
-    "4:2:0, frames/fields, 1-16 bit asymmetric luma/chroma depths, odd component sizes) + stream variations, 90% with re-packed "
+    "4:2:0, frames/fields, 1-16 bit asymmetric luma/chroma depths, odd component sizes) + stream variations (30% of cases mix the "
+    "pictures of 2-3 sibling recipes with different slice counts/depths/wavelets/fragment sizes into one sequence), 90% with re-packed "
     "payloads biased to magnitude classes 2^20 and 2^40 and qindex 0 / maximum (127 LD, 255 HQ) so that both clip bounds are "
     "reached; distinct = distinct (recipes, variation, seed) hash; cases the encoder rejects are trivial"
 )
@@ -121,14 +122,16 @@ def run_case(case, ctx):
         recipe = sq["recipe"]
         dd = configs.recipe_dims(recipe, sq["cf"]["video_parameters"])
         strat = configs.stratum(recipe)
-        for num in nums:
+        prs = sq.get("picture_recipes") or []
+        for j, num in enumerate(nums):
             pic = out[i][0]
             i += 1
             if not check_picture(pic, num, dd, strat, ctx):
                 ok = False
                 break
             ctx.count("pictures_checked")
-            ctx.count("pictures:" + ("fragmented" if recipe["fsc"] else "unfragmented"))
+            pr = prs[j] if j < len(prs) else recipe  # with mixed_params every picture has its own transform parameters
+            ctx.count("pictures:" + ("fragmented" if pr["fsc"] else "unfragmented"))
             ctx.count("pictures:" + ("LD" if recipe["profile"] == 0 else "HQ"))
             ctx.count("pictures:" + ("fields" if recipe["pcm"] else "frames"))
         if not ok:
@@ -214,6 +217,7 @@ def evidence_extra(agg, tier):
             "at_0": c.get("clip_low_hits:" + comp, 0), "at_max": c.get("clip_high_hits:" + comp, 0),
             "at_0_depth>1": c.get("clip_low_hits_depth>1:" + comp, 0), "at_max_depth>1": c.get("clip_high_hits_depth>1:" + comp, 0),
             "components_with_both": c.get("components_hitting_both_bounds:" + comp, 0)}
+    out["mixed_parameter_transitions"] = {k.split(":", 2)[2]: v for k, v in c.items() if k.startswith("gen:mixed:")}
     out["magnitude_classes"] = {k.split(":", 1)[1]: v for k, v in c.items() if k.startswith("variation:repack:")}
     return out
 
@@ -243,7 +247,13 @@ def floor(agg, tier):
                 miss.append("%s: %d < %d samples at the bound" % (k, c.get(k, 0), 5000 * scale))
         if c.get("components_hitting_both_bounds:" + comp, 0) < 300 * scale:
             miss.append("fewer than %d %s components reached both clip bounds" % (300 * scale, comp))
-    for name in ("repack:2^20", "repack:2^40", "repack:2000", "dangling", "npo_zero", "multi_seq", "pad_units", "rep_seq_header",
+    for t, need in (("plain->frag", 60), ("frag->plain", 60), ("frag->frag", 100), ("geometry_change_into_frag", 100),
+                    ("geometry_change_into_plain", 100), ("geometry_change+plain->frag", 50), ("geometry_change+frag->plain", 50),
+                    ("slices_up", 40), ("slices_down", 40), ("dh_up", 20), ("dh_down", 20), ("dh1->0_same_d", 25), ("dh0->1_same_d", 25),
+                    ("d_up", 20), ("d_down", 20)):
+        if c.get("gen:mixed:" + t, 0) < need * scale:
+            miss.append("mixed-parameter transition %s seen %d times (< %d)" % (t, c.get("gen:mixed:" + t, 0), need * scale))
+    for name in ("mixed_params", "repack:2^20", "repack:2^40", "repack:2000", "dangling", "npo_zero", "multi_seq", "pad_units", "rep_seq_header",
                  "scaler_raised", "ld_ylen:random"):
         if c.get("variation:" + name, 0) < 30 * scale:
             miss.append("variation %s exercised %d times" % (name, c.get("variation:" + name, 0)))
